@@ -525,6 +525,9 @@ func checkC01(c *Ctx) {
 	c.withAlias(map[string]string{"R3": "R7", "R4": "R7", "R5": "R7"}, func() { checkQueues(c, runOwn(c)) })
 	c.Rule("R5", "no alias of the read buffer escapes into a decoded request (shared with C10.R2): a queued request is not rewritten by the next read")
 	checkReadBufferAlias(c, "R5")
+	c.Rule("R8", "one reply per request (shared with C02.R1): every request is completed exactly once on every path - a request completed twice (answered by a filter and still queued for a backend reply) shifts every later reply of that backend connection by one")
+	reportOwn(c, runOwn(c), "R8", nil)
+	c.Expect("R8", 25)
 }
 
 // checkSplitAssemble: child k built from argument f(k); one child per iteration; reply assembly by index.
